@@ -1031,6 +1031,9 @@ class MPO(MPSGeometry):
             IdL = self.IdL[i + 1]
             IdR = self.IdR[i + 1]
             assert IdL is not None and IdR is not None
+            # markers may be given as negative indices (e.g. IdR = -1 after `__add__`)
+            IdL = IdL % U1.shape[1]
+            IdR = IdR % U1.shape[1]
             U1[:, IdL, :, :] = U1[:, IdL, :, :] + dt * U1[:, IdR, :, :]
             keep = np.ones(U1.shape[1], dtype=bool)
             keep[IdR] = False
@@ -1049,6 +1052,9 @@ class MPO(MPSGeometry):
         IdL = self.IdL[0]
         IdR = self.IdR[0]
         assert IdL is not None and IdR is not None
+        chi0 = self.get_W(0).get_leg('wL').ind_len
+        IdL = IdL % chi0
+        IdR = IdR % chi0
         if IdL > IdR:
             IdLR_0 = IdL - 1
         else:
